@@ -4,7 +4,7 @@ import dsgcase, graphdrive
 
 ID = 'C02'
 RULE = ('G-sel graphs (3-11 nodes, 1-4 selection choices with 1-4 options, shared option nodes, several choices per node, '
-        'derivation cycles, 1-2 start nodes, 0-3 incompatibilities) built top-down; for every admissible assignment of the '
+        'derivation cycles, fan-out/fan-in diamonds, 1-2 start nodes, 0-3 incompatibilities, random insertion order of edges and choices, optional earlier derivation of the same object from another start set) built top-down, plus a G-diamond family; for every admissible assignment of the '
         'model (enum_adm, proved exact) the graph API is driven in up to 6 orders and must end final+feasible with exactly '
         'inst_nodes; every path the implementation offers is walked depth-first and every feasible final state must be an '
         'admissible instance; non-trivial = at least 2 admissible assignments or 2 choices; distinct = distinct graph')
@@ -18,7 +18,7 @@ def known_guard(case):
 
 def batches(tier, seed):
     rng = rng_for(seed, 'C02')
-    n = 250 if tier == 'quick' else 4000
+    n = 1200 if tier == 'quick' else 8000
     cases = []
     for i in range(n):
         c = dsgcase.gen_sel(rng)
@@ -31,6 +31,12 @@ def batches(tier, seed):
         c['_i'] = i
         adv.append(c)
     yield 'g-adv', adv
+    dia = []
+    for i in range(n // 4):
+        c = dsgcase.gen_diamond(rng)
+        c['_i'] = i
+        dia.append(c)
+    yield 'g-diamond', dia
 
 
 def run_case(case):
